@@ -10,7 +10,7 @@ from lib import dbcgen as G
 from lib import matrices as M
 
 PID = "C05"
-EXTRA_PROPS = ("Num", "C05b", "C05c")
+EXTRA_PROPS = ("Num", "C05b", "C05c", "C05d")
 RULE = ("case 'rt' = a generated matrix of DBC-expressible content (identifier names incl. names longer than 32 characters, ECU names "
         "of >= 2 characters, standard/extended ids, CAN FD and J1939 frames, simple and extended multiplexing, float signals, limits, "
         "start values inside the limits and on the raw grid, cycle times, value tables with quotes, comments over several lines with "
@@ -19,8 +19,8 @@ RULE = ("case 'rt' = a generated matrix of DBC-expressible content (identifier n
         "variables, signals without frame; file encoding latin-1 or utf-8, comment encoding equal or utf-8 in a latin-1 file): written "
         "with canmatrix.formats.dump, read with loads, written again; observed: exception, 'error with line no' on stdout, byte "
         "equality of the two files, every path on which the normal forms (carrier attributes folded) differ. case 'file' = the frame "
-        "section of that file (BO_/SG_ lines) against the Lean writer and reader of Model/DbcText.lean. cases 'sg'/'bo'/'val'/'tx'/'vt'/'mul'/'def'/'dd'/'ba' = one "
-        "statement (SG_, BO_, VAL_, BO_TX_BU_, SIG_VALTYPE_, SG_MUL_VAL_, BA_DEF_, BA_DEF_DEF_, BA_ of user attributes on all levels): the line "
+        "section of that file (BO_/SG_ lines) against the Lean writer and reader of Model/DbcText.lean. cases 'sg'/'bo'/'val'/'tx'/'vt'/'mul'/'def'/'dd'/'ba'/'cm' = one "
+        "statement (SG_, BO_, VAL_, BO_TX_BU_, SIG_VALTYPE_, SG_MUL_VAL_, BA_DEF_, BA_DEF_DEF_, BA_ of user attributes on all levels, CM_ comments over one or several lines): the line "
         "in the file against the Lean writer, and what the real reader makes of it alone against the Lean reader. Non-trivial = distinct case.")
 PARTIAL = ["the Lean model covers the frame section (BO_, SG_ with multiplex tags) at file level and VAL_ at statement level; comments, "
            "attributes, definitions, senders, signal groups, SG_MUL_VAL_, EV_ and the reader's post-processing are decided by the "
@@ -255,6 +255,25 @@ def cases_of(desc, rng=None):
         if "\n" in b["value"] or "\\" in b["value"]:
             continue            # texts over several lines and backslashes: decided by the whole-file round trip
         yield {"op": "ba", "c": {"m": desc, "ba": b}}
+    # comments (texts in ASCII without carriage returns; the encodings are the whole-file case's business)
+    cms = []
+    for f in db.frames:
+        cid = f.arbitration_id.to_compound_integer()
+        if f.comment:
+            cms.append({"head": "CM_ BO_ %d" % cid, "text": f.comment})
+        for sg in f.signals:
+            if sg.comment:
+                cms.append({"head": "CM_ SG_ %d %s" % (cid, out_name(sg.name)), "text": sg.comment})
+    for e in db.ecus:
+        if e.comment and len(e.name) <= 32:
+            cms.append({"head": "CM_ BU_ %s" % e.name, "text": e.comment})
+    if rng is not None:
+        rng.shuffle(cms)
+    ncm = 0
+    for cmt in cms:
+        if ncm < 4 and all(ord(ch) < 128 for ch in cmt["text"]) and "\r" not in cmt["text"]:
+            ncm += 1
+            yield {"op": "cm", "c": {"m": desc, "cm": cmt}}
     # further statements: senders beyond the first, float types, extended multiplexing bindings
     n = {"tx": 0, "vt": 0, "mul": 0}
     for f in db.frames:
@@ -321,6 +340,34 @@ def observe(case):
         fr = db.frames[0] if db.frames else None
         sg = (fr.signals[0] if fr and fr.signals else None) or (db.signals[0] if db.signals else None)
         return {"line": line, "parsed": {"id": v["id"], "name": v["name"], "entries": [[int(k), t] for k, t in sg.values.items()]} if sg is not None else None}
+    if op == "cm":
+        cmt = c["cm"]
+        mo = None
+        idx = None
+        for k, l in enumerate(r["lines"]):
+            mo = re.match(re.escape(cmt["head"]) + r' +"', l)     # (the writer puts one or two blanks in front of the quote)
+            if mo:
+                idx = k
+                break
+        if idx is None:
+            return {"lines": [], "parsed": None}
+        start = mo.group(0)
+        n = cmt["text"].count("\n") + 1
+        lines = list(r["lines"][idx:idx + n])
+        body = [lines[0][len(start):]] + lines[1:]
+        kind = cmt["head"].split()[1]
+        parts = cmt["head"].split()
+        ctx = {"BO_": ["BO_ %s F: 8 Vector__XXX" % parts[2], ""],
+               "SG_": ["BO_ %s F: 8 Vector__XXX" % parts[2], ' SG_ %s : 0|1@1+ (1,0) [0|1] "" Vector__XXX' % (parts[3] if len(parts) > 3 else "s"), ""],
+               "BU_": ["BU_: %s" % parts[2], ""]}[kind]
+        db2, _ = load_lines(ctx + lines + ["", "BA_DEF_  \"Z\" INT 0 1;"], enc)
+        if kind == "BO_":
+            got = db2.frames[0].comment if db2.frames else None
+        elif kind == "SG_":
+            got = db2.frames[0].signals[0].comment if db2.frames and db2.frames[0].signals else None
+        else:
+            got = db2.ecus[0].comment if db2.ecus else None
+        return {"lines": body, "parsed": got if got else None}
     if op == "def":
         d = c["def"]
         kwd = {"frame": "BO_", "signal": "SG_", "ecu": "BU_", "global": ""}[d["level"]]
@@ -409,6 +456,8 @@ def project(impl):
         return {"attr": impl["attr"], "initial": impl["initial"]}
     if "section" in impl:
         return {"section": impl["section"], "read": impl["read"]}
+    if "lines" in impl:
+        return {"lines": impl["lines"], "parsed": impl.get("parsed")}
     return {"line": impl.get("line"), "parsed": impl.get("parsed")}
 
 
